@@ -421,6 +421,74 @@ def _drain_group(t, case, ingest, group, order, seed, limit):
     return source, bulks, runaway
 
 
+def _body_bytes(body):
+    return body.encode("utf-8") if isinstance(body, str) else bytes(body)
+
+
+class _BulkEs:
+    """simulated endpoint for the real bulk runner: records every body it is sent"""
+
+    def __init__(self, sink):
+        from esrally.client.context import RequestContextHolder
+
+        self._holder = RequestContextHolder()
+        self.sink = sink
+
+    def new_request_context(self):
+        return self._holder.new_request_context()
+
+    def return_raw_response(self):
+        self._holder.return_raw_response()
+
+    async def bulk(self, body=None, params=None, **kw):
+        import asyncio
+        import io as pyio
+
+        self._holder.on_request_start()
+        self.sink.append(_body_bytes(body))
+        await asyncio.sleep(1 / 64)
+        self._holder.on_request_end()
+        return pyio.BytesIO(b'{"took":1,"errors":false,"items":[]}')
+
+    async def close(self):
+        pass
+
+
+def _run_through_adapter(t, case, group, seed):
+    """the clients of one worker run the bulk task through the real AsyncIoAdapter / AsyncExecutor / schedule_for / bulk runner"""
+    import threading
+
+    from esrally.driver import driver
+    from esrally.driver import runner as rally_runner
+
+    from sim import kernel, loadgen
+
+    sink = []
+
+    class Factory:
+        def __init__(self, *a, **kw):
+            pass
+
+        def create_async(self, api_key=None, client_id=None):
+            return _BulkEs(sink)
+
+    op = track.Operation("bulk-op", track.OperationType.Bulk.to_hyphenated_string(), params=_op_params(case, 100))
+    task = track.Task("bulk-task", op, clients=case["clients"])
+    random.seed(seed)
+    clock = kernel.VirtualClock(horizon=1e6)
+    cfg = loadgen.base_config("abort")
+    rally_runner.register_runner(track.OperationType.Bulk, rally_runner.BulkIndex(), async_runner=True)
+    allocs, contexts = [], {}
+    for c in group:
+        allocs.append(driver.ClientAllocation(c, driver.TaskAllocation(task, c, c, case["clients"])))
+        contexts[c] = driver.ClientContext(client_id=c, parent_worker_id=0)
+    with kernel.patched(*(kernel.time_patches(clock) + [(driver.client, "EsClientFactory", Factory)])):
+        sampler = driver.Sampler(start_timestamp=clock.perf_counter())
+        adapter = driver.AsyncIoAdapter(cfg, t, allocs, sampler, threading.Event(), threading.Event(), "abort", contexts, 0)
+        kernel.run_virtual(clock, adapter.run())
+    return sink
+
+
 def _body_lines(body):
     if isinstance(body, str):
         body = body.encode("utf-8")
@@ -695,6 +763,18 @@ def _run_files(case, obs):
                     f"group {gi}: the {len(bulks_c)} bulks at {ingest} % are not the first bulks of the full run",
                 )
 
+            # ---- run D (a sample of the cases): the real AsyncIoAdapter.run() with the real bulk runner on a virtual-time loop ---
+            # this checks, instead of restating it, how schedule_for shares one parameter source among the co-located clients of a task
+            if case["seed"] % 4 == 0 and total_docs <= 3000 and not case["conflicts"]:
+                sent = _run_through_adapter(t, case, group, seed)
+                obs.check(
+                    sorted(sent) == sorted(_body_bytes(x.body) for x in bulks_a),
+                    "end-to-end/bulks-differ",
+                    f"group {gi}: the real AsyncIoAdapter sent {len(sent)} bulk requests, the drained parameter source yields {len(bulks_a)}"
+                    + ("" if len(sent) != len(bulks_a) else " with different bodies"),
+                )
+                obs.cls("end-to-end-through-AsyncIoAdapter")
+
         # ---- exact cover per targeted file --------------------------------------------------------------------------
         offset_used = False
         for f in targeted:
@@ -788,4 +868,7 @@ def run_case(case, obs):
         raise ValueError(kind)
 
 
-PROBES = {}
+PROBES = {
+    # fixed: ZeroDivisionError in PartitionBulkIndexParamSource.percent_completed for two co-located clients without documents
+    "crash/RallyError@driver/driver.py:__call__": json.load(open(os.path.join(os.path.dirname(os.path.dirname(os.path.abspath(__file__))), "replays", "C03", "two-idle-colocated-clients.json")))["case"],
+}
